@@ -294,3 +294,24 @@ Proof.
   destruct (N.eq_dec (snd (decode_rune p)) 1) as [E|E]; [assumption|]. exfalso.
   destruct (decode_rune_error3 p Hr ltac:(lia)) as [t ->]. cbn in Hf. discriminate.
 Qed.
+
+(* DecodeRune yields U+0000 exactly for the byte 00 *)
+Lemma decode_rune_zero : forall p0 t, (fst (decode_rune (p0 :: t)) =? 0) = (p0 =? 0).
+Proof.
+  intros p0 t. unfold decode_rune, RUNE_ERROR.
+  destruct (N.ltb_spec p0 128); [reflexivity|]. replace (p0 =? 0) with false by lia.
+  destruct ((p0 <? 194) || (244 <? p0)) eqn:E0; [reflexivity|]. cbv zeta.
+  destruct t as [|b1 t1]; [reflexivity|].
+  destruct ((b1 <? _) || (_ <? b1)) eqn:E1; [reflexivity|].
+  destruct (N.ltb_spec p0 224).
+  { cbn [fst]. rewrite land31, land63. lia. }
+  destruct t1 as [|b2 t2]; [reflexivity|].
+  destruct ((b2 <? 128) || (191 <? b2)) eqn:E2; [reflexivity|].
+  destruct (N.ltb_spec p0 240).
+  { cbn [fst]. rewrite land15, !land63.
+    revert E1. destruct (N.eqb_spec p0 224), (N.eqb_spec p0 237), (N.eqb_spec p0 240), (N.eqb_spec p0 244); intros E1; lia. }
+  destruct t2 as [|b3 t3]; [reflexivity|].
+  destruct ((b3 <? 128) || (191 <? b3)) eqn:E3; [reflexivity|].
+  cbn [fst]. rewrite land7, !land63.
+  revert E1. destruct (N.eqb_spec p0 224), (N.eqb_spec p0 237), (N.eqb_spec p0 240), (N.eqb_spec p0 244); intros E1; lia.
+Qed.
